@@ -46,6 +46,7 @@ func receiptsBody(nsend int) nd.Body {
 		instOf := map[string]inst{} // id of a receipt message -> (acknowledged id, instance)
 		var dispatching inst
 		lostReceipt := ""
+		var late []string // ids whose receipt is sent only after every sender has returned
 		ctxs := make([]context.Context, nsend)
 		cancels := make([]context.CancelFunc, nsend)
 		for i := range ctxs {
@@ -68,7 +69,6 @@ func receiptsBody(nsend int) nd.Body {
 			}}
 			m := mux.New(ns, receipts.Handle(h))
 			answered := map[string]bool{}
-			var late []string
 			var seenOut strings.Builder
 			receipt := func(id string) string {
 				receiptsSent[id]++
@@ -200,6 +200,19 @@ func receiptsBody(nsend int) nd.Body {
 		}
 		if lostReceipt != "" {
 			return fail("receipt-for-waiting-call-went-to-unhandled", "the first receipt for %s was reported as unhandled while its sender was waiting for it (not cancelled, not returned)", lostReceipt)
+		}
+		// a receipt that arrives after its call has returned (given up) is a
+		// response nobody waits for: it goes to the handler's Unhandled callback
+		for _, id := range late {
+			n := 0
+			for _, u := range unhandled {
+				if u == id {
+					n++
+				}
+			}
+			if n != 1 {
+				return fail("late-receipt-not-reported-as-unhandled", "the receipt for %s arrived after its call had returned; Unhandled was called %d times for it", id, n)
+			}
 		}
 		if len(topLevel) == 0 || topLevel[len(topLevel)-1] != "sentinel" {
 			return fail("serve-loop-stalled", "the sentinel stanza was never dispatched")
